@@ -111,3 +111,20 @@ def Alg.annots : Alg → List String
   | .project p _ => p.annots
 
 end RV.C04
+
+namespace RV.C04
+
+/-- the tree with no lazy join at all (what `analyse` would give if it never answered "lazy") -/
+def Alg.strict : Alg → Alg
+  | .bgp tps => .bgp tps
+  | .join _ a b => .join false a.strict b.strict
+  | .union a b => .union a.strict b.strict
+  | .leftJoin a b e p1 p2 => .leftJoin a.strict b.strict e p1 p2
+  | .filter e p vars noIso => .filter e p.strict vars noIso
+  | .extend p v e vars => .extend p.strict v e vars
+  | .minus a b p1 p2 => .minus a.strict b.strict p1 p2
+  | .graph g p => .graph g p.strict
+  | .values vars rows => .values vars rows
+  | .project p pv => .project p.strict pv
+
+end RV.C04
